@@ -90,6 +90,13 @@ def run(v):
                                   "--wasm-sessions", 200 if thorough else 20], timeout=7200)
     if rc != 0:
         raise common.ToolError("hv c19 failed: " + err[-2000:])
+    # the same through the language server: HarperRecordLint commands, shutdown appends, several incarnations
+    trace_ls = os.path.join(wd, "trace_ls.ndjson")
+    rc, out, err = common.run_hv(["ls-stats", "--out", trace_ls, "--seed", v.seed, "--sessions", 200 if thorough else 25], timeout=7200)
+    if rc != 0:
+        raise common.ToolError("hv ls-stats failed: " + err[-2000:])
+    with open(trace, "a") as f:
+        f.write(open(trace_ls).read())
     v.cov["distinct_nontrivial"] = validate(v, trace, "t")
     v.cov["tlc_cases_generated"] = n
     v.cov["rule"] = ("sessions = a fresh log, 1-3 append batches, the whole log read back and summarised after "
